@@ -190,11 +190,15 @@ func (s *Service) fetchEncodedDataRootTuples(ctx context.Context, start, end uin
 	}
 	headers = append(headers, startHeader)
 
-	headerRange, err := s.headerGetter.GetRangeByHeight(ctx, startHeader, end)
-	if err != nil {
-		return nil, err
+	// a range of a single block has nothing after the start header
+	// (header stores refuse the empty range (start+1, end)).
+	if end > start+1 {
+		headerRange, err := s.headerGetter.GetRangeByHeight(ctx, startHeader, end)
+		if err != nil {
+			return nil, err
+		}
+		headers = append(headers, headerRange...)
 	}
-	headers = append(headers, headerRange...)
 
 	for _, header := range headers {
 		encodedDataRootTuple, err := encodeDataRootTuple(header.Height(), *(*[32]byte)(header.DataHash))
